@@ -1,4 +1,5 @@
 import JT.Model.Registry
+import JT.Gen.ConcShape
 /-!
 # C11 — session registry: at most one live connection per terminal key
 
@@ -240,5 +241,11 @@ theorem events_paired : ∀ (ops : List Op) (s : St) (c : Nat),
 key, A ends, C takes the key. -/
 example : (run init [.join 0 7, .join 1 7, .leave 1, .route 9, .route 7, .leave 0, .join 2 7]).2 =
     [.joined 0 7, .refusedOut 1 7, .left 1 none, .notExist 9, .routed 7 0, .left 0 (some 7), .joined 2 7] := by decide
+
+
+/-- the model's atomicity assumption, read off the source on every run: in `sessionManager.join/leave/write` every use
+of the session table and the hand-over to the connection happen inside the closure that the single manager goroutine
+executes -/
+theorem registry_operations_atomic_in_source : Gen.managerOpsInClosure = true := by decide
 
 end JT.C11
